@@ -110,7 +110,7 @@ ValueOk(mode, e, res) ==
     CASE ObservedExtract(mode, e) # "value" -> TRUE
       [] tx.kind = "bank" -> TRUE
       [] mode \in {"raw", "rawopt"} -> e.data = [t |-> "s", v |-> fx.callee.env_b64]               \* byte for byte the envelope
-      [] mode \in {"plain", "opt"} /\ res.class = "good" -> e.data = fx.callee.data_json
+      [] mode \in {"plain", "opt", "plainO"} /\ res.class = "good" -> e.data = fx.callee.data_json
       [] mode \in {"inst", "instopt"} /\ res.class = "good_inst" ->
              e.data.t = "inst" /\ e.data.addr = fx.callee.addr /\ e.data.data = fx.callee.data_b64
       [] OTHER -> TRUE
